@@ -9,6 +9,9 @@ modes
   checker : case {item_url, ua_hex, responses:[{status, location, body_hex}|{'error': 'protocol'|'network'}], max_redirects}
             -> RobotsTxtChecker.can_fetch with the real WebClient/WebSession/RedirectTracker over a scripted HTTP client
   scraper : case {html, robots} -> HTMLScraper.scrape link contexts with/without the robots flag + the meta elements
+  conc    : case {ua_hex, max_redirects, script:{url:[response...]}, tasks:[{delay, visits:[[url, hop...]]}]} -> several asyncio
+            tasks share ONE RobotsTxtChecker (real WebClient/WebSession/RedirectTracker, scripted HTTP client whose answers
+            take a scripted number of event-loop turns); returns the event log in the order things happened
 """
 import io
 import json
@@ -223,7 +226,143 @@ def run_scraper(case):
     return {'on': scrape(True), 'off': scrape(False), 'elems': elems}
 
 
-MODES = {'parser': run_parser, 'pool': run_pool, 'checker': run_checker, 'scraper': run_scraper}
+# --------------------------------------------------------------------------
+# several tasks, one checker
+# --------------------------------------------------------------------------
+def run_conc(case):
+    import asyncio
+    import os
+    import shutil
+    import tempfile
+    log = []
+    script = {k: list(v) for k, v in case['script'].items()}
+    tasks_by_obj = {}
+
+    def cur():
+        return tasks_by_obj.get(asyncio.current_task(), -1)
+
+    def key_of(url_info):
+        return [url_info.scheme, url_info.hostname, url_info.port]
+
+    class Session(object):
+        def __init__(self):
+            self.response = None
+
+        @compat.coroutine
+        def start(self, request):
+            request.prepare_for_send()
+            url = request.url_info.url
+            lst = script.get(url)
+            if not lst:
+                item = {'status': 404}
+            elif len(lst) > 1:
+                item = lst.pop(0)
+            else:
+                item = lst[0]
+            for _ in range(item.get('pre', 0)):         # connecting
+                yield from asyncio.sleep(0)
+            log.append(['req', cur(), url, key_of(request.url_info)])
+            for _ in range(item.get('yields', 0)):      # waiting for the answer
+                yield from asyncio.sleep(0)
+            log.append(['resp', cur(), item])
+            if item.get('error') == 'protocol':
+                raise ProtocolError('scripted')
+            if item.get('error') == 'network':
+                raise NetworkError('scripted')
+            resp = Response(item['status'], 'X')
+            resp.request = request
+            if item.get('location') is not None:
+                resp.fields['Location'] = item['location']
+            self.response = resp
+            self.body = bytes.fromhex(item.get('body_hex', ''))
+            return resp
+
+        @compat.coroutine
+        def download(self, file=None, duration_timeout=None):
+            if file is not None:
+                if not isinstance(file, wpull.body.Body):
+                    self.response.body = wpull.body.Body(file)
+                else:
+                    self.response.body = file
+                off = file.tell()
+                self.response.body.write(self.body)
+                self.response.body.flush()
+                file.seek(off)
+            return
+            yield  # pragma: no cover
+
+        def abort(self):
+            pass
+
+        def recycle(self):
+            pass
+
+    class Client(object):
+        def session(self):
+            return Session()
+
+        def close(self):
+            pass
+
+    class Pool(RobotsTxtPool):
+        def load_robots_txt(self, url_info, text):
+            super().load_robots_txt(url_info, text)
+            log.append(['stored', cur(), key_of(url_info), dump_rulesets(self._parsers[self.url_info_key(url_info)])])
+
+    class Checker(RobotsTxtChecker):
+        @compat.coroutine
+        def fetch_robots_txt(self, request, file=None):
+            log.append(['fetchstart', cur(), key_of(request.url_info)])
+            res = yield from RobotsTxtChecker.fetch_robots_txt(self, request, file=file)
+            return res
+
+    mr = case.get('max_redirects', 20)
+    web = WebClient(http_client=Client(), redirect_tracker_factory=lambda: RedirectTracker(max_redirects=mr))
+    checker = Checker(web_client=web, robots_txt_pool=Pool())
+    ua = unl1(case['ua'])
+
+    async def worker(ti, spec):
+        tasks_by_obj[asyncio.current_task()] = ti
+        for _ in range(spec.get('delay', 0)):
+            await asyncio.sleep(0)
+        for visit in spec['visits']:
+            for hi, url in enumerate(visit):
+                request = Request(url)
+                request.fields['User-agent'] = ua
+                request.prepare_for_send()
+                log.append(['call', ti, cps(request.url_info.url), key_of(request.url_info), hi > 0])
+                try:
+                    v = await checker.can_fetch(request)
+                except (ServerError, NetworkError) as e:
+                    log.append(['error', ti, type(e).__name__])
+                    break
+                log.append(['verdict', ti, bool(v)])
+                if not v:
+                    break
+                for _ in range(spec.get('gap', 0)):     # the item's own request / response
+                    await asyncio.sleep(0)
+
+    async def main():
+        await asyncio.gather(*[worker(i, t) for i, t in enumerate(case['tasks'])])
+
+    loop = compat.new_loop()
+    cwd = os.getcwd()
+    tmp = tempfile.mkdtemp(prefix='verif-c20-')
+    os.chdir(tmp)
+    try:
+        try:
+            loop.run_until_complete(asyncio.wait_for(main(), 20))
+            res = {'log': log}
+        except Exception as e:     # a crash or a deadlock is a finding, not a harness error
+            res = {'log': log, 'crash': '%s: %s' % (type(e).__name__, e)}
+    finally:
+        os.chdir(cwd)
+        shutil.rmtree(tmp, ignore_errors=True)
+        loop.close()
+    return res
+
+
+MODES = {'parser': run_parser, 'pool': run_pool, 'checker': run_checker, 'scraper': run_scraper, 'conc': run_conc}
 
 
 def main():
